@@ -355,24 +355,24 @@ type c14cfg struct {
 }
 
 type c14env struct {
-	t       *testing.T
-	r       *vk.Run
-	dir     string
-	written [c14nFiles]string
-	reps    int // loads of the base and of the all-reversed member order
+	t         *testing.T
+	r         *vk.Run
+	dir       string
+	written   [c14nFiles]string
+	reps      int // loads of the base and of the all-reversed member order
 	lightReps int // loads of every other member order
-	full    int
-	pairs   bool
-	child   *bufio.Writer     // non-nil: child mode (one base load per configuration, digests written)
-	only    map[string]bool   // child: the cases the parent wants re-loaded
-	digests map[string]string // parent: case id -> digest of base decisions of consistent cases
-	order   []string
-	loads   int64
-	probesN int64
-	idx     int
-	mine    int
-	pass    int
-	stop    bool
+	full      int
+	pairs     bool
+	child     *bufio.Writer     // non-nil: child mode (one base load per configuration, digests written)
+	only      map[string]bool   // child: the cases the parent wants re-loaded
+	digests   map[string]string // parent: case id -> digest of base decisions of consistent cases
+	order     []string
+	loads     int64
+	probesN   int64
+	idx       int
+	mine      int
+	pass      int
+	stop      bool
 }
 
 func (e *c14env) path(i int) string { return filepath.Join(e.dir, c14fileNames[i]) }
@@ -861,17 +861,6 @@ func c14vipEmpty() *c14j { return c14o(false, "Version", "v1", "Vips", c14o(true
 
 func c14backend(name, addr string, port, weight int) *c14j {
 	return c14o(false, "Name", name, "Addr", addr, "Port", port, "Weight", weight)
-}
-
-// gslb + cluster_table for clusters that have one sub-cluster with one backend each.
-func c14simpleBal(clusters ...string) (*c14j, *c14j) {
-	g := c14o(true)
-	ct := c14o(true)
-	for i, cl := range clusters {
-		g.add(cl, c14o(true, "sub_"+cl, 1))
-		ct.add(cl, c14o(true, "sub_"+cl, c14a(false, c14backend("bk_"+cl, fmt.Sprintf("10.1.0.%d", i+1), 80, 1))))
-	}
-	return c14o(false, "Clusters", g, "Hostname", "gslb.test", "Ts", "1"), c14o(false, "Version", "v1", "Config", ct)
 }
 
 func c14canonHost(h string) string {
@@ -1469,9 +1458,9 @@ func TestVerifC14(t *testing.T) {
 					fmt.Sprintf("parent process decided %q, child process decided %q", e.digests[id], got))
 			}
 		}
-		r.Set("process.compared_configs", compared)
+		r.Set("sum_process_compared_configs", compared)
 	}
-	r.Set("loads", e.loads)
-	r.Set("probe_decisions", e.probesN)
+	r.Set("sum_loads", e.loads)
+	r.Set("sum_probe_decisions", e.probesN)
 	r.Set("bounds", fmt.Sprintf("loads: base and all-reversed member order %d each, every other member order %d; every permutation of a site with <=%d members (rotations+reversal above); pairs of sites (configs with <=4 sites): %v", e.reps, e.lightReps, e.full, e.pairs))
 }
